@@ -1589,6 +1589,18 @@ _vstep = lambda k: dict(
     assign_effects=[_store("V" + k), _MU_IADD, ("Q[dix] += __v", "Q'", "np_add_diag_at dix' {state} {v}")],
     try_prims=[_MVN], ignore=["warnings.warn(__m)"])
 C08_V2_STEP, C08_V1_STEP = _vstep("2"), _vstep("1")
+# _reconstruct_Mu(clip): the fitted values from scratch
+C08_RECONSTRUCT = dict(
+    _STMETHOD, func="_reconstruct_Mu", name="src_reconstruct_Mu", pyparams=["self", "clip"], pydefaults=["True"],
+    params=[("g", "cfg"), ("d", "data"), ("clip", "bool"), ("self", "st")],
+    vars={"_": _QV, "cline": _ZV, "dd1": _ZV, "dd2": _ZV, "interaction2": _QV, "interaction1": _QV, "intercept": _QV},
+    prims=[("self.get('V0', __i)", "!src_get qnum q0 (V0 self') {i}", _QV, {"i": _ZV}),
+           ("__a[__i]", "np_take q0 {a} {i}", _QV, {"a": _QV, "i": _ZV}),
+           ("np.sum(__a, -1)", "map qsum {a}", _QV, {"a": _QM}),                      # row sums
+           ("self.min_Mu", "c_minMu g", "qnum"), ("self.max_Mu", "c_maxMu g", "qnum"),
+           ("np.clip(__a, __lo, __hi)", "map (qclip {lo} {hi}) {a}", _QV, {"a": _QV, "lo": "qnum", "hi": "qnum"})]
+          + _C08_LINALG2[:1] + _C08_LINALG[:2] + _C08_SELF + _C08_SCALAR + _C08_VEC + _C08_VEC2[:4] + _C08_MAT[:6],
+)
 C08_ALL = [C08_N_OBS, C08_GET, C08_MCMC_STEP, C08_ALPHA, C08_PREC_OBS, C08_PREC_W0, C08_W0_STEP, C08_V0_STEP, C08_PREC_V0,
-           C08_PREC_V2, C08_PREC_V1, C08_PREC_W, C08_W_STEP, C08_V2_STEP, C08_V1_STEP]
+           C08_PREC_V2, C08_PREC_V1, C08_PREC_W, C08_W_STEP, C08_V2_STEP, C08_V1_STEP, C08_RECONSTRUCT]
 ALL += C08_ALL
